@@ -121,6 +121,22 @@ impl TimemarkedTransaction {
     }
 }
 
+/// Read-only accessors for the deterministic-simulation probe (`mempool::verif_probe`).
+#[cfg(all(test, feature = "verif"))]
+impl TimemarkedTransaction {
+    pub(super) fn verif_checked_tx(&self) -> &Arc<CheckedTransaction> {
+        &self.checked_tx
+    }
+
+    pub(super) fn verif_costs(&self) -> &HashMap<IbcPrefixed, u128> {
+        &self.costs
+    }
+
+    pub(super) fn verif_time_first_seen(&self) -> Instant {
+        self.time_first_seen
+    }
+}
+
 impl fmt::Display for TimemarkedTransaction {
     fn fmt(&self, f: &mut fmt::Formatter) -> fmt::Result {
         write!(
@@ -883,6 +899,14 @@ impl<const MAX_PARKED_TXS_PER_ACCOUNT: usize> ParkedTransactions<MAX_PARKED_TXS_
         }
 
         removed.collect()
+    }
+}
+
+/// Read-only accessor for the deterministic-simulation probe (`mempool::verif_probe`).
+#[cfg(all(test, feature = "verif"))]
+impl<const MAX_PARKED_TXS_PER_ACCOUNT: usize> ParkedTransactions<MAX_PARKED_TXS_PER_ACCOUNT> {
+    pub(super) fn verif_max_tx_count(&self) -> usize {
+        self.max_tx_count
     }
 }
 
